@@ -1,34 +1,23 @@
 use exmex::prelude::*;
 use exmex_verif::tcase::*;
 use exmex_verif::term::*;
-use std::time::Instant;
 fn main() {
-    for n in [64usize, 128, 256, 513] {
-        let table: Vec<OpSpec> = (0..8).map(|i| OpSpec::bin(["+", "-", "*", "/", "^", "%", "&", "|"][i], (i * 12) as i64, false)).collect();
-        set_table(&table);
-        let mut text = String::new();
-        for i in 0..n {
-            if i > 0 {
-                text.push_str(&format!(" {} ", table[(i * 7) % 8].name));
+    let table = vec![OpSpec::bin("-", 0, false), OpSpec::un("sin"), OpSpec::bin("+", 1, false)];
+    set_table(&table);
+    for text in ["( -(x - {x} )- x 1 )", "-(x - x)- x 1", "- x 1", "-(y-z) x", "- (y) - x 1", "+ x 1", "(+ x 1)", "(- (y-z) x)"] {
+        let f = F::parse(text);
+        let d = D::parse(text);
+        match (&f, &d) {
+            (Ok(f), Ok(d)) => {
+                let n = f.var_names().len();
+                let vals: Vec<Term> = (0..n).map(|i| Term::Atom(i as u32)).collect();
+                println!("{text:30} flat {:?}   deep {:?}  unparse {}", f.eval(&vals).unwrap(), d.eval(&vals).unwrap(), d.unparse());
             }
-            text.push_str(&format!("{{u{:03}}}", i));
+            _ => println!("{text:30} flat ok={} deep ok={} {:?} {:?}", f.is_ok(), d.is_ok(), f.err().map(|e| e.msg().to_string()), d.err().map(|e| e.msg().to_string())),
         }
-        let vals: Vec<Term> = (0..n).map(|i| Term::Atom(i as u32)).collect();
-        let t = Instant::now();
-        let f = F::parse(&text).unwrap();
-        let t1 = t.elapsed();
-        let _ = f.eval(&vals).unwrap();
-        let t2 = t.elapsed();
-        let d = D::parse(&text).unwrap();
-        let t3 = t.elapsed();
-        let _ = d.eval(&vals).unwrap();
-        let t4 = t.elapsed();
-        let fd = f.clone().to_deepex().unwrap();
-        let t5 = t.elapsed();
-        let _ = fd.eval(&vals).unwrap();
-        let t6 = t.elapsed();
-        let _ = F::from_deepex(d).unwrap();
-        let t7 = t.elapsed();
-        println!("n={n} parse {:?} eval {:?} dparse {:?} deval {:?} to_deepex {:?} eval {:?} from_deepex {:?}", t1, t2 - t1, t3 - t2, t4 - t3, t5 - t4, t6 - t5, t7 - t6);
     }
+    let text = "(- (y-z) x)";
+    println!("f64: {:?} {:?}", exmex::FlatEx::<f64>::parse(text).map(|e| e.eval(&[1.0, 10.0, 100.0])), exmex::DeepEx::<f64>::parse(text).map(|e| e.eval(&[1.0, 10.0, 100.0])));
+    println!("f64 eval_str: {:?}", exmex::eval_str::<f64>("* (1 - 2) 4"));
+    println!("f64 eval_str: {:?}", exmex::eval_str::<f64>("* 3 4"));
 }
